@@ -240,6 +240,15 @@ def run(ctx):
                        f"with a checkpoint in the layout build_checkpoint_state writes, the restored {nm} is {T.show(val_)[:160] if val_ else 'not set'}, not {where}: "
                        "the resumed run continues from a different state", disc=f"{nm}|exact")
 
+    # ---- the sampler-specific extras are merged into every payload
+    bcs0 = repo.cls("aspire.samplers.base:Sampler").resolve("build_checkpoint_state")
+    evm = _Ev(repo, max_depth=1, no_inline={"aspire.samplers.base:Sampler._checkpoint_extra_state", "aspire.samplers.base:Sampler.config_dict"})
+    rm_ = T.strip_raise(evm.run(bcs0, repo.cls("aspire.samplers.base:Sampler")))
+    spread = [v_ for k_, v_ in rm_[1] if k_ == T.K("**")] if rm_[0] == "d" else []
+    okm_ = any(v_[0] == "f" and v_[1].endswith("_checkpoint_extra_state") and v_[2] and v_[2][0] == SELF for v_ in spread)
+    ctx.decide(okm_, "C11.keys", bcs0.ident, loc_of(bcs0), "the base payload is updated with _checkpoint_extra_state() (random state, history and other per-sampler extras)",
+               "build_checkpoint_state does not merge _checkpoint_extra_state() into the payload: the generator state and the history never reach a checkpoint", disc="extras")
+
     # ---- the three documented checkpoint sources: path -> file loader, bytes -> unpickled, dict -> used as is
     base_cls = repo.cls("aspire.samplers.base:Sampler")
     brf = base_cls.resolve("restore_from_checkpoint")
@@ -602,6 +611,7 @@ MUTANTS += [
     M("stored temperature ignored unless meta is not a dict", _B, "if isinstance(meta, dict):\n            beta = meta.get(\"beta\", None)", "if not isinstance(meta, dict):\n            beta = meta.get(\"beta\", None)", "C11.restore"),
     M("stored temperature overridden by the root default", _B, "if beta is None:\n            beta = state.get(\"beta\", 0.0)", "if beta is not None:\n            beta = state.get(\"beta\", 0.0)", "C11.restore"),
     M("generator state restored only when absent", _B, "if rng_state is not None and hasattr(self.rng, \"bit_generator\"):", "if rng_state is None and hasattr(self.rng, \"bit_generator\"):", "C11.restore"),
+    M("extras not merged into the payload", "src/aspire/samplers/base.py", "base_state.update(self._checkpoint_extra_state())\n", "", "C11.keys"),
     M("bytes checkpoints treated as paths", "src/aspire/samplers/base.py", "if isinstance(source, str):\n            state = self.load_checkpoint_from_file(source)\n        elif isinstance(source, bytes):\n            state = pickle.loads(source)",
       "if isinstance(source, (str, bytes)):\n            state = self.load_checkpoint_from_file(source)", "C11.src"),
     M("extra sampler state never restored", "src/aspire/samplers/base.py", "self._restore_extra_state(state)\n        return samples, state", "return samples, state", ("C11.src", "C11.state")),
